@@ -311,6 +311,10 @@ func (t *Thread) processIncomingInterest(packet *defn.Pkt) {
 				return
 			}
 			core.LogTrace(t, "NextHopFaceId is set for Interest ", packet.Name, " - dispatching directly to face")
+			// Record the transmission like the outgoing Interest pipeline does, so that
+			// retransmissions are suppressed and the nonce reaches the dead nonce list
+			pitEntry.InsertOutRecord(interest, *packet.NextHopFaceID)
+			t.NOutInterests++
 			dispatch.GetFace(*packet.NextHopFaceID).SendPacket(dispatch.OutPkt{
 				Pkt:      packet,
 				PitToken: packet.PitToken, // TODO: ??
